@@ -224,6 +224,9 @@ class RefEval:
     def round(self, ctx, ideal, op: str):
         """C(exact result): one rounding under the active context"""
         self.ops_seen[op] = self.ops_seen.get(op, 0) + 1
+        if ideal is not None and ideal[0] == 'fin' and ideal[2].numerator.bit_length() + ideal[2].denominator.bit_length() > 6000:
+            # exact values under REAL can grow without bound (repeated squaring in a loop): out of budget, not compared
+            raise Budget()
         if ideal is None:
             raise Ambiguous(f'{op}: ideal not defined by the reference (sign of NaN)')
         notes = {}
